@@ -4,6 +4,10 @@
 # a seeded countdown over executed edges decides where the running thread is pre-empted between two libc calls.
 # Nothing in /repo changes; only this build of it is instrumented.
 rustc="$1"; shift
+# build scripts and proc-macros run on the host without the harness runtime: never instrument them
+for a in "$@"; do
+  case "$a" in build_script_build|build_script_main) exec "$rustc" "$@" ;; esac
+done
 case "${CARGO_PKG_NAME:-}" in
   gixsim|gix-features|gix-odb|gix-pack|gix-ref|gix-lock|gix-tempfile|gix-fs|gix-worktree-stream|gix-index|gix-utils)
     exec "$rustc" "$@" -C passes=sancov-module -C llvm-args=-sanitizer-coverage-level=3 -C llvm-args=-sanitizer-coverage-trace-pc-guard ;;
